@@ -10,6 +10,7 @@ import (
 	"go/types"
 	"sort"
 	"strings"
+	"sync"
 	"time"
 
 	"golang.org/x/tools/go/ssa"
@@ -116,6 +117,7 @@ type Exec struct {
 	deadline     time.Time
 	aliasResolve bool // resolve select-over-store aliasing with the solver under the path condition
 	lazy         bool // lazy goroutine schedule (vSchedLazy)
+	preferFalse  bool // hint for the next Branch: take the false side first when both are feasible
 	aliasQ       int
 
 	curThread  int
@@ -330,6 +332,7 @@ func (e *Exec) foldConc(c *Term) *Term {
 
 // Branch decides a symbolic condition on this path.
 func (e *Exec) Branch(cond *Term) bool {
+	defer func() { e.preferFalse = false }()
 	if cond.op == OpConst {
 		return cond.val != 0
 	}
@@ -390,7 +393,11 @@ func (e *Exec) Branch(cond *Term) bool {
 		if e.forkCount > e.maxForks {
 			panic(pathEnd{"undecided", "fork bound exceeded"})
 		}
-		alt := append(append([]decision(nil), e.taken...), decision{0, 0})
+		altV := uint64(0)
+		if e.preferFalse {
+			takeTrue, altV = false, 1
+		}
+		alt := append(append([]decision(nil), e.taken...), decision{0, altV})
 		e.forks = append(e.forks, alt)
 	}
 	e.di++
@@ -592,6 +599,9 @@ func (e *Exec) runFrame(fr *frame) Value {
 				}
 			case *ssa.If:
 				c := e.get(fr, x.Cond).(*Term)
+				// at a loop test, leave the loop first: with the shortest-prefix-first
+				// work list this explores loops by iterative deepening
+				e.preferFalse = loopExitIsFalse(b)
 				if e.Branch(c) {
 					next = b.Succs[0]
 				} else {
@@ -1564,10 +1574,10 @@ func (e *Exec) copyBuiltin(dstV, srcV Value) Value {
 	}
 	db := e.sliceBytes(dst)
 	if n.op != OpConst {
-		n = e.enumSmall(n, 16, "copy: element count")
-		if n.val == 0 {
-			return n
-		}
+		// symbolic count: one block-copy term (src is a value, so overlapping
+		// source and destination behave like memmove)
+		db.arr = e.st.ArrCopy(db.arr, sarr, dst.off, soff, n)
+		return n
 	}
 	if n.val > 4096 {
 		e.unsupported("copy of more than 4096 elements")
@@ -2330,4 +2340,34 @@ func (e *Exec) selectR(arr, idx *Term) *Term {
 		break
 	}
 	return e.st.Select(cur, idx)
+}
+
+// loopExitIsFalse: b ends in an If whose true successor can come back to b and
+// whose false successor cannot (the false side leaves the loop).
+var loopExitCache sync.Map
+
+func loopExitIsFalse(b *ssa.BasicBlock) bool {
+	if v, ok := loopExitCache.Load(b); ok {
+		return v.(bool)
+	}
+	reach := func(from *ssa.BasicBlock) bool {
+		seen := map[*ssa.BasicBlock]bool{}
+		st := []*ssa.BasicBlock{from}
+		for len(st) > 0 {
+			x := st[len(st)-1]
+			st = st[:len(st)-1]
+			if x == b {
+				return true
+			}
+			if seen[x] {
+				continue
+			}
+			seen[x] = true
+			st = append(st, x.Succs...)
+		}
+		return false
+	}
+	r := len(b.Succs) == 2 && reach(b.Succs[0]) && !reach(b.Succs[1])
+	loopExitCache.Store(b, r)
+	return r
 }
